@@ -373,7 +373,7 @@ func run(c *mc.Ctx) {
 		rs := &ss[i]
 		rootA := rs.world(twins[0])
 		nstates := 0
-		cfg := sm.Cfg{Depth: depth, Events: []string{"msg:+12065550199", "refresh:a", "expire"}, Regimes: []bool{true}, ChoiceBound: 0}
+		cfg := sm.Cfg{Ctx: c, Depth: depth, Events: []string{"msg:+12065550199", "refresh:a", "expire"}, Regimes: []bool{true}, ChoiceBound: 0}
 		cfg.OnNewState = func(t *sm.Trans) {
 			nstates++
 			// corpus layer: all states in the thorough tier, the start state of every 8th root in quick
@@ -496,6 +496,12 @@ func init() {
 		Assumptions: []string{"evaluation is a pure function of context, environment and the harness-owned seams, so identical forced contexts imply identical template values", "the template corpus is evaluated on a subset of states (quick: the first two states of every 64th root; thorough: all states of every 4th root)"},
 		Run:         run,
 		Replay:      replayFn,
+		Single:      sm.Single,
+		Classify:    sm.SkipHangs,
+		HangLimit:   15 * time.Second,
+		SingleLimit: 30 * time.Second,
+		MaxBadCases: 2,
+		MemLimitKB:  8 << 20,
 		Budget:      map[string]time.Duration{"quick": 5 * time.Minute, "thorough": 25 * time.Minute},
 		Guards: func(r *mc.Result, tier string) []string {
 			var f []string
